@@ -64,12 +64,11 @@ Definition time_valueless (tg : tags) : bool :=
 
 Definition norm_lf (s : str) : str := if endswith1 LF s then s else s ++ [LF].
 
-(* the decidable domain on which parsing only ever reports MalformedIrcMsg:
-   the tag section carries no `time` tag without a value *)
-Definition parse_dom (s : str) : bool :=
+(* the line carries a `time` tag without a value *)
+Definition time_valueless_line (s : str) : bool :=
   match split_tags (norm_lf s) with
-  | Ok (tg, _) => negb (time_valueless tg)
-  | Raise _ => true
+  | Ok (tg, _) => time_valueless tg
+  | Raise _ => false
   end.
 
 Lemma parse_head_exn vt tg args e :
@@ -95,47 +94,38 @@ Qed.
 
 Lemma catches_current :
   existsb (exn_eqb IndexError) gen.T05.PARSE_CATCHES = true /\
-  existsb (exn_eqb ValueError) gen.T05.PARSE_CATCHES = true.
-Proof. split; vm_compute; reflexivity. Qed.
+  existsb (exn_eqb ValueError) gen.T05.PARSE_CATCHES = true /\
+  existsb (exn_eqb TypeError) gen.T05.PARSE_CATCHES = true.
+Proof. repeat split; vm_compute; reflexivity. Qed.
 
-Lemma parse_total_on_domain vt s :
-  parse_dom s = true ->
-  (exists m, parse vt s = Ok m) \/ parse vt s = Raise MalformedIrcMsg.
+Lemma parse_inner_exn vt s e :
+  parse_inner vt s = Raise e -> e = IndexError \/ e = ValueError \/ e = TypeError.
 Proof.
-  intro Hdom. destruct catches_current as [Hi Hv].
-  unfold parse. destruct s as [|c0 s0]; [right; reflexivity|].
-  set (s := c0 :: s0) in *.
-  destruct (parse_inner vt s) as [m|e] eqn:Ep; [left; eauto|right].
-  assert (He : e = IndexError \/ e = ValueError).
-  { unfold parse_inner in Ep. unfold parse_dom, norm_lf in Hdom.
-    destruct (split_tags (if endswith1 LF s then s else s ++ [LF])) as [[tg rest]|e'] eqn:Es.
-    - cbn [bind fst snd] in Ep. apply parse_head_exn in Ep as [H|[H|[_ H]]]; auto.
-      rewrite H in Hdom. discriminate.
-    - cbn [bind] in Ep. inversion Ep; subst. eapply split_tags_exn; eauto. }
-  destruct He as [He|He]; subst e; [rewrite Hi|rewrite Hv]; reflexivity.
+  unfold parse_inner. intro Ep.
+  destruct (split_tags (if endswith1 LF s then s else s ++ [LF])) as [[tg rest]|e'] eqn:Es.
+  - cbn [bind fst snd] in Ep. apply parse_head_exn in Ep as [H|[H|[H _]]]; auto.
+  - cbn [bind] in Ep. inversion Ep; subst. apply split_tags_exn in Es as [H|H]; auto.
 Qed.
 
-(* the pinned code violates totality outside that domain: "@time :x PING y" *)
+(* Totality: every string either parses or is reported as MalformedIrcMsg *)
+Lemma parse_total vt s :
+  (exists m, parse vt s = Ok m) \/ parse vt s = Raise MalformedIrcMsg.
+Proof.
+  destruct catches_current as [Hi [Hv Ht]].
+  unfold parse. destruct s as [|c0 s0]; [right; reflexivity|].
+  destruct (parse_inner vt (c0 :: s0)) as [m|e] eqn:Ep; [left; eauto|right].
+  apply parse_inner_exn in Ep as [He|[He|He]]; subst e; [rewrite Hi|rewrite Hv|rewrite Ht]; reflexivity.
+Qed.
+
+Lemma parse_exn_classes vt s e : parse vt s = Raise e -> e = MalformedIrcMsg.
+Proof.
+  intro H. destruct (parse_total vt s) as [[m Hm]|Hm]; rewrite Hm in H; inversion H; reflexivity.
+Qed.
+
+(* the line that used to escape as TypeError (finding C05.F3, repaired): "@time :x PING y" *)
 Definition witness_typeerror : str :=
   [64; 116; 105; 109; 101; 32; 58; 120; 32; 80; 73; 78; 71; 32; 121].
 
-Lemma parse_total_refuted vt :
-  parse_dom witness_typeerror = false /\ parse vt witness_typeerror = Raise TypeError.
+Lemma valueless_time_rejected vt :
+  time_valueless_line witness_typeerror = true /\ parse vt witness_typeerror = Raise MalformedIrcMsg.
 Proof. split; vm_compute; reflexivity. Qed.
-
-(* nothing but MalformedIrcMsg or that TypeError ever escapes *)
-Lemma parse_exn_classes vt s e :
-  parse vt s = Raise e -> e = MalformedIrcMsg \/ (e = TypeError /\ parse_dom s = false).
-Proof.
-  intro H. destruct (parse_dom s) eqn:Hd.
-  - destruct (parse_total_on_domain vt s Hd) as [[m Hm]|Hm]; rewrite Hm in H; inversion H; auto.
-  - unfold parse in H. destruct s as [|c0 s0]; [inversion H; auto|].
-    destruct (parse_inner vt (c0 :: s0)) as [m|e'] eqn:Ep; [discriminate|].
-    destruct (existsb (exn_eqb e') gen.T05.PARSE_CATCHES) eqn:Ec; inversion H; subst; auto.
-    right. split; [|reflexivity].
-    destruct catches_current as [Hi Hv].
-    unfold parse_inner in Ep.
-    destruct (split_tags (if endswith1 LF (c0 :: s0) then c0 :: s0 else (c0 :: s0) ++ [LF])) as [[tg rest]|e''] eqn:Es.
-    + cbn [bind fst snd] in Ep. apply parse_head_exn in Ep as [Hx|[Hx|[Hx _]]]; subst; congruence.
-    + cbn [bind] in Ep. inversion Ep; subst. apply split_tags_exn in Es as [Hx|Hx]; subst; congruence.
-Qed.
